@@ -1,6 +1,6 @@
 """developer tool: run one contract and print every obligation verdict"""
-import sys, time, importlib
-sys.path.insert(0, '/verif')
+import sys, time, importlib, os
+sys.path.insert(0, os.path.dirname(os.path.dirname(os.path.abspath(__file__))))
 from pyvc import engine
 from pyvc.interp import Repo
 import contracts.common as cc
